@@ -1,4 +1,210 @@
-use vcommon::Args;
-pub fn ser(_args: &Args) -> i32 {
+//! Secondary clause of C05: Proof bit-packing round trip, padding refusal, difficulty determinism.
+//! The layout oracle is my own packer written from the documented layout (nonce i occupies bits
+//! i*w .. (i+1)*w-1 of a little-endian bit string, zero padded to a whole byte); small-valued
+//! cases are additionally emitted as "Pack" events which TLC checks against CuckooTrace.tla.
+use blake2::blake2b::blake2b;
+use grin_core::consensus::{graph_weight, SECOND_POW_EDGE_BITS};
+use grin_core::global::{self, ChainTypes};
+use grin_core::pow::{Difficulty, Proof, ProofOfWork};
+use grin_core::ser::{self, DeserializationMode, ProtocolVersion};
+use rand::rngs::StdRng;
+use rand::{Rng, SeedableRng};
+use serde_json::{json, Value};
+use std::panic::{catch_unwind, AssertUnwindSafe};
+use vcommon::*;
+
+fn own_pack(nonces: &[u64], w: usize) -> Vec<u8> {
+	let nbits = nonces.len() * w;
+	let mut out = vec![0u8; (nbits + 7) / 8];
+	for (i, n) in nonces.iter().enumerate() {
+		for b in 0..w {
+			if (n >> b) & 1 == 1 {
+				let pos = i * w + b;
+				out[pos / 8] |= 1 << (pos % 8);
+			}
+		}
+	}
+	out
+}
+
+fn read_proof(bytes: &[u8]) -> Result<Result<Proof, ()>, ()> {
+	let b = bytes.to_vec();
+	catch_unwind(AssertUnwindSafe(move || {
+		ser::deserialize::<Proof, _>(&mut &b[..], ProtocolVersion::local(), DeserializationMode::default()).map_err(|_| ())
+	}))
+	.map_err(|_| ())
+}
+
+fn own_difficulty(p: &Proof, height: u64, secondary_scaling: u32) -> u64 {
+	let packed = own_pack(&p.nonces, p.edge_bits as usize);
+	let h = blake2b(32, &[], &packed);
+	let mut w = [0u8; 8];
+	w.copy_from_slice(&h.as_bytes()[..8]);
+	let h64 = u64::from_be_bytes(w).max(1) as u128;
+	let scale = if p.edge_bits == SECOND_POW_EDGE_BITS { secondary_scaling as u64 } else { graph_weight(height, p.edge_bits) };
+	let d = ((scale as u128) << 64) / h64;
+	(d.min(u64::MAX as u128) as u64).max(1)
+}
+
+fn one_chain(chain: ChainTypes, seed: u64, reps: usize, events: &mut Vec<Value>, mism: &mut Vec<Value>) -> (u64, u64, u64) {
+	global::set_local_chain_type(chain);
+	let k = global::proofsize();
+	let cname = if chain == ChainTypes::Mainnet { "mainnet" } else { "automated" };
+	let mut s = [0u8; 32];
+	s[..8].copy_from_slice(&seed.to_le_bytes());
+	s[8] = k as u8;
+	let mut rng: StdRng = SeedableRng::from_seed(s);
+	let (mut checks, mut pads, mut diffs) = (0u64, 0u64, 0u64);
+	for w in 1..=63usize {
+		for rep in 0..reps {
+			// rep 0: small values (representable in TLC), later reps: full width
+			let small = rep == 0;
+			let lim: u64 = if small { 1u64 << w.min(30) } else { 1u64 << w };
+			let mut nonces: Vec<u64> = (0..k).map(|_| rng.gen_range(0, lim)).collect();
+			if rep == 1 {
+				nonces = vec![lim - 1; k]; // all ones
+			}
+			nonces.sort_unstable();
+			let p = Proof { edge_bits: w as u8, nonces: nonces.clone() };
+			let own = own_pack(&nonces, w);
+			let packed = match catch_unwind(AssertUnwindSafe(|| p.pack_nonces())) {
+				Ok(b) => b,
+				Err(_) => {
+					mism.push(json!({"what":"pack_panic","chain":cname,"w":w,"nonces":nonces}));
+					continue;
+				}
+			};
+			checks += 1;
+			if packed != own {
+				mism.push(json!({"what":"pack_layout","chain":cname,"w":w,"nonces":nonces}));
+			}
+			let mut wire = vec![w as u8];
+			wire.extend_from_slice(&own);
+			let written = ser::ser_vec(&p, ProtocolVersion::local()).unwrap_or_default();
+			if written != wire {
+				mism.push(json!({"what":"write_bytes","chain":cname,"w":w,"nonces":nonces}));
+			}
+			// Proof::read documents that fewer than 8 packed bytes is refused; otherwise bit-exact
+			let readable = own.len() >= 8;
+			let rt = match read_proof(&wire) {
+				Err(_) => {
+					mism.push(json!({"what":"read_panic","chain":cname,"w":w,"nonces":nonces}));
+					false
+				}
+				Ok(Ok(q)) => {
+					if !readable || q.edge_bits != p.edge_bits || q.nonces != p.nonces {
+						mism.push(json!({"what":"roundtrip_differs","chain":cname,"w":w,"nonces":nonces,"got":q.nonces}));
+						false
+					} else {
+						true
+					}
+				}
+				Ok(Err(_)) => {
+					if readable {
+						mism.push(json!({"what":"roundtrip_refused","chain":cname,"w":w,"nonces":nonces}));
+					}
+					false
+				}
+			};
+			// every padding bit, alone and all together, must be refused
+			let pad_bits = own.len() * 8 - k * w;
+			let mut refused = 0;
+			if readable {
+				for b in 0..pad_bits {
+					let pos = k * w + b;
+					let mut bad = wire.clone();
+					bad[1 + pos / 8] |= 1 << (pos % 8);
+					pads += 1;
+					match read_proof(&bad) {
+						Ok(Err(_)) => refused += 1,
+						Ok(Ok(_)) => mism.push(json!({"what":"padding_accepted","chain":cname,"w":w,"bit":b,"nonces":nonces})),
+						Err(_) => mism.push(json!({"what":"padding_panic","chain":cname,"w":w,"bit":b})),
+					}
+				}
+				// truncated and empty inputs are errors, never panics
+				for cut in [0usize, 1, wire.len() / 2, wire.len() - 1] {
+					if let Err(_) = read_proof(&wire[..cut]) {
+						mism.push(json!({"what":"short_read_panic","chain":cname,"w":w,"cut":cut}));
+					} else if let Ok(Ok(_)) = read_proof(&wire[..cut]) {
+						mism.push(json!({"what":"short_read_accepted","chain":cname,"w":w,"cut":cut}));
+					}
+				}
+			}
+			// edge_bits 0 and > 63 are refused
+			if w == 1 {
+				for ebad in [0u8, 64, 255] {
+					let mut bad = wire.clone();
+					bad[0] = ebad;
+					bad.resize(1 + 8 * 64, 0);
+					if let Ok(Ok(_)) = read_proof(&bad) {
+						mism.push(json!({"what":"bad_edge_bits_accepted","edge_bits":ebad}));
+					}
+				}
+			}
+			if small && readable {
+				events.push(json!({"k":"Pack","chain":cname,"w":w,"nonces":nonces,"len":packed.len(),"bytes":packed,
+					"roundtrip":rt,"pad_bits":pad_bits,"pad_refused":refused}));
+			}
+			// difficulty: a function of (packed nonces, edge_bits, height / scaling) only
+			if w as u8 >= global::base_edge_bits() && readable {
+				for (height, scaling) in [(0u64, 1u32), (1000, 7), (100_000, 1856)] {
+					let mk = |pr: Proof| ProofOfWork { total_difficulty: Difficulty::from_num(rng_free(height)), secondary_scaling: scaling, nonce: height ^ 0x55, proof: pr };
+					let a = mk(p.clone());
+					let mut b = mk(p.clone());
+					b.nonce = 12345; // fields outside the packed nonces / scaling do not matter
+					b.total_difficulty = Difficulty::from_num(99);
+					let reread = match read_proof(&wire) {
+						Ok(Ok(q)) => q,
+						_ => p.clone(),
+					};
+					let c = mk(reread);
+					let r = catch_unwind(AssertUnwindSafe(|| (a.to_difficulty(height).to_num(), a.to_difficulty(height).to_num(), b.to_difficulty(height).to_num(), c.to_difficulty(height).to_num())));
+					diffs += 1;
+					match r {
+						Err(_) => mism.push(json!({"what":"difficulty_panic","chain":cname,"w":w,"height":height})),
+						Ok((d1, d2, d3, d4)) => {
+							let own_d = own_difficulty(&p, height, scaling);
+							if !(d1 == d2 && d1 == d3 && d1 == d4) {
+								mism.push(json!({"what":"difficulty_not_deterministic","chain":cname,"w":w,"height":height,"got":[d1,d2,d3,d4]}));
+							} else if d1 != own_d {
+								mism.push(json!({"what":"difficulty_formula","chain":cname,"w":w,"height":height,"real":d1.to_string(),"own":own_d.to_string()}));
+							}
+						}
+					}
+				}
+			}
+		}
+	}
+	(checks, pads, diffs)
+}
+
+fn rng_free(h: u64) -> u64 {
+	h + 1
+}
+
+pub fn ser(args: &Args) -> i32 {
+	let seed = args.u64("seed", 1);
+	let reps = args.u64("reps", 4) as usize;
+	let mut out = NdWriter::create(args.req("out"));
+	let mut totals = vec![];
+	let mut all_m = vec![];
+	for chain in [ChainTypes::AutomatedTesting, ChainTypes::Mainnet] {
+		let h = std::thread::spawn(move || {
+			let mut ev = vec![];
+			let mut m = vec![];
+			let t = one_chain(chain, seed, reps, &mut ev, &mut m);
+			(ev, m, t)
+		});
+		let (ev, m, t) = h.join().expect("ser thread");
+		for e in ev {
+			out.put(&e);
+		}
+		all_m.extend(m);
+		totals.push(t);
+	}
+	let n = out.n;
+	out.finish();
+	println!("{}", json!({"events": n, "pack_checks": totals.iter().map(|t| t.0).sum::<u64>(), "padding_cases": totals.iter().map(|t| t.1).sum::<u64>(),
+		"difficulty_cases": totals.iter().map(|t| t.2).sum::<u64>(), "mismatches": all_m}));
 	0
 }
